@@ -259,6 +259,30 @@ pub fn install_hook(oracle: OracleRef, registry: RegistryRef, ledger: LedgerRef)
                                "ackers": ackers, "non_voter_ackers": learners}),
                     );
                 }
+                // C09, literal form: a majority of the voters (leader included) actually hold entry N at this
+                // instant (live in-memory log; a node that is down counts if it had acknowledged N)
+                if let Some(lt) = et {
+                    let reg = registry.lock().unwrap();
+                    let mut holders = vec![v.node_id];
+                    for f in voters.iter() {
+                        let holds = match reg.live.get(f) {
+                            Some(hh) => hh.log.entry(n).ok().flatten().is_some_and(|e| e.term == lt)
+                                || (hh.log.first_entry_id() > n && hh.log.first_entry_id() > 0),
+                            None => ackers.contains(f),
+                        };
+                        if holds {
+                            holders.push(*f);
+                        }
+                    }
+                    if holders.len() < majority(voters.len() + 1) {
+                        o.violate(
+                            "C09",
+                            "commit_without_majority_holding",
+                            json!({"leader": v.node_id, "term": v.term, "index": n, "voters_view": voters, "holders": holders,
+                                   "ackers": ackers}),
+                        );
+                    }
+                }
             } else if v.role != ROLE_LEARNER || true {
                 o.probe("follower_commit_advance");
             }
